@@ -131,3 +131,34 @@ func VerifC10evict() {
 		v.Assert(n == len(want), "evict-iter-count")
 	}
 }
+
+// VerifC10warm: a node restarted on a non-empty database. LoadStore hands the cache the tree's
+// whole contents (Initialize) at the loaded version V; after two more blocks of arbitrary writes a
+// read at the past height V+1 served from the cache returns exactly what the tree holds there —
+// including the keys written before the restart.
+func VerifC10warm() {
+	tree := modelkv.New()
+	for i := 0; i < 2; i++ {
+		tree.SetRaw(v.Bytes(1), v.Bytes(1))
+	}
+	dataset := map[string]string{}
+	for _, kv := range tree.Snapshot() {
+		dataset[string(kv.K)] = string(kv.V)
+	}
+	m := NewMemoryCache(2)
+	m.Initialize(dataset, 5) // as iavl.LoadStore does with the loaded tree at version 5
+	c10ops(m, tree, 1)
+	m.Commit(6)
+	snap := modelkv.New()
+	for _, kv := range tree.Snapshot() {
+		snap.SetRaw(kv.K, kv.V)
+	}
+	c10ops(m, tree, 1)
+	m.Commit(7)
+	v.Assert(m.isHeightSafeToRead(6), "height-after-restart-is-cached")
+	key := v.Bytes(1)
+	got, err := m.Get(6, key)
+	want := snap.GetRaw(key)
+	v.Assert(err == nil, "warm-get-served")
+	v.Assert(v.And((got == nil) == (want == nil), bytes.Equal(got, want)), "warm-get-equals-tree")
+}
